@@ -15,6 +15,7 @@ PROPS=$(python3 -c "import json;print(' '.join(c['property_id'] for c in json.lo
 SKIP=${SEED_MATRIX_SKIP:-/dev/null}
 for d in seeded/*/; do
   id=$(basename $d)
+  [ -f "$d/patch.diff" ] || continue
   grep -qx "$id" "$SKIP" 2>/dev/null && continue
   # SEED_MATRIX_DIAGONAL=1: only the check of the property the change was written against
   P="$PROPS"; [ -n "$SEED_MATRIX_DIAGONAL" ] && P=$(echo $id | cut -c1-3)
